@@ -215,7 +215,7 @@ PROPS = {
                 rule='one evaluation = one multi-task plan (2-16 real threads, each with its own workload) first run solo per task, then under the seeded scheduler with a choice at every allocator call, streaming callback and describe write; non-trivial = at least one pre-emption happened inside a library call; distinct = distinct schedule hashes'),
     'C18': dict(level='exploration', phases=[('plainO2', None, 15000, 150000), ('plainO0', None, 15000, 150000), ('tsan', None, 1500, 15000)],
                 rule='one evaluation = one tree built inside the arena, write-protected, then inspected with every read-only operation on every node (or read concurrently by 2-8 threads under TSan); non-trivial = the tree has >= 2 nodes and >= 10 read-only calls ran under protection; distinct = distinct plan digests'),
-    'C19': dict(level='exploration', phases=[('plainO2', 'default', 1500, 10000), ('plainO2', 3, 1500, 10000)],
+    'C19': dict(level='exploration', phases=[('plainO2', 'default', 1500, 10000), ('plainO2', 3, 1200, 10000), ('plainO2', 1, 500, 6000), ('plainO2', 2, 500, 6000)],
                 rule='one evaluation = one nesting chain (kinds x depth relative to L) delivered in fragments to a cbor_load receiver running on a simulator-owned bounded stack, followed by describe/size/serialize/copy/release on the same stack; non-trivial = depth >= L-1; distinct = distinct plan digests per L'),
 }
 THOROUGH_L = [1, 2, 3, 8, 64, 'default']
@@ -694,7 +694,8 @@ def cmd_setup():
     t0 = time.time()
     for fl in ('asan', 'plainO2', 'plainO0', 'tsan'):
         build(fl)
-    build('plainO2', 3)
+    for L in (3, 1, 2): build('plainO2', L)
+    build('asan', 3)
     print('setup complete in %.1fs' % (time.time() - t0))
     return 0
 
